@@ -57,6 +57,7 @@ OpsOf(cls, s) ==
     [] cls = "Nid"        -> {o \in NidOps : s.nodes[o.k].present}
     [] cls = "Prev"       -> {o \in PrevOps : Apply(s, o).res # "skip"}
     [] cls = "KeyKind"    -> {o \in KeyKindOps : s.nodes[o.k].present}
+    [] cls = "PrevCert"   -> {[op |-> "SetPrevCert", k |-> k, from |-> f] : k \in Present(s), f \in CertKeys}
     [] cls = "Strip"      -> {o \in StripOps : s.nodes[o.k].present}
     [] cls = "Tamper"     -> {o \in TamperOps : Apply(s, o).res # "skip"}
     [] cls = "FetchAuth"  -> AuthSet(s)
